@@ -25,7 +25,9 @@ import random
 
 import numpy as np
 
-from harness.common import Ctx, Part, lean_batch, load_corpus, pmap
+import subprocess
+
+from harness.common import Ctx, Infra, Part, lean_batch, load_corpus, pmap
 
 P = "IrVerif.Extract."
 THEOREMS = [
@@ -867,6 +869,8 @@ def work(item) -> dict:
                 check_model(part, spec, cuts[i : i + 400], tag)
         elif kind == "aux":
             check_aux(part, payload)
+    except (Infra, subprocess.SubprocessError, OSError):
+        raise  # infrastructure problem (driver missing / being rebuilt): exit 2, never a disagreement
     except Exception as e:  # noqa: BLE001
         import traceback
 
@@ -900,9 +904,11 @@ def check_aux(part, payload) -> None:
             impls.append({"r": got})
             whats.append(("external", gid, pid))
             # oracle: values used in g (any depth) that pg defines
-            exp = sorted({obs.v(v) for v in brute.used_inside(g) if brute.def_graph.get(id(v)) == id(pg)})
+            inner = {id(g)} | {id(s) for s in nested_graphs(obs, g)}
+            exp = sorted({obs.v(v) for v in brute.used_inside(g)
+                          if brute.def_graph.get(id(v)) == id(pg) or brute.def_graph.get(id(v)) not in inner})
             if spec.get("wellformed", True) and exp != got:
-                part.fail("external-values", "_collect_all_external_values != values used inside that the parent defines", {"spec": spec, "graph": gid, "parent": pid, "got": got, "expected": exp})
+                part.fail("external-values", "_collect_all_external_values != values used inside the nested graph that come from outside it", {"spec": spec, "graph": gid, "parent": pid, "got": got, "expected": exp})
     # create_value_mapping(include_subgraphs=False)
     tj = obs.target_j()
     target = objs["target"]
